@@ -84,6 +84,25 @@ def obsBlock (s : Sess) : List String :=
     s!"newick {toNewick val s.fb f}",
     "end" ]
 
+/-- which rule of the construction a step applies: 0 new leaf, 1 joins the single adjacent structure,
+    2 several meet / none kept, 3 several meet / one kept, 4 several meet / new branch -/
+def classifyStep (E : Env) (roots : List Tree) (p : Nat) : Nat :=
+  let adj := roots.filter (touches E p)
+  match adj with
+  | [] => 0
+  | [_] => 1
+  | _ =>
+    match (adj.filter (fun t => !insig E p t)).length with
+    | 0 => 2
+    | 1 => 3
+    | _ => 4
+
+def stepStats (E : Env) (order : List Nat) : List Nat :=
+  let r := order.foldl (fun (acc : List Tree × List Nat) p =>
+    let c := classifyStep E acc.1 p
+    (step E acc.1 p, acc.2.set c (acc.2.getD c 0 + 1))) ([], [0, 0, 0, 0, 0])
+  r.2
+
 def doCompute (m : List (String × String)) : Option (Sess × List String) := do
   let shape ← parseNatList (← look m "shape")
   let periodic ← parseNatList (← look m "periodic")
@@ -121,7 +140,10 @@ def doCompute (m : List (String × String)) : Option (Sess × List String) := do
   let f := compute E order
   let s1 := { s0 with forest := f, mlevels := origLevelsL val f }
   let b2i (b : Bool) : Nat := if b then 1 else 0
-  some (s1, s!"hyp sorted={b2i sorted} cover={b2i cover} nodup={b2i nodup} inrange={b2i inrange}" :: obsBlock s1)
+  let st := stepStats E order
+  let dropped := (droppedOrphans E (run E order)).length
+  some (s1, s!"hyp sorted={b2i sorted} cover={b2i cover} nodup={b2i nodup} inrange={b2i inrange}" ::
+    s!"steps newleaf={st.getD 0 0} joinone={st.getD 1 0} nonekept={st.getD 2 0} onekept={st.getD 3 0} branch={st.getD 4 0} dropped={dropped}" :: obsBlock s1)
 
 def doPrune (s : Sess) (m : List (String × String)) : Option (Sess × List String) := do
   let crits ← parseCrits (← look m "crit")
